@@ -312,7 +312,37 @@ def r05_5(run, model):
     run.floor("binder insertions in the resolver", n, 3)
 
 
+def r05_6(run, model):
+    run.rule("R05.6", "every binder gets a fresh local: the id handed to `env.add(name, id)` comes from fresh_name / fresh_local (a counter), "
+                      "never from an interning allocator keyed by the syntax node - generated code (derive) shares one syntax pointer for "
+                      "all its nodes, so interned binders would collapse into one variable")
+    NR = "crates/compiler/src/typer/name_resolution.rs"
+    n = 0
+    for f in model.fns(NR):
+        if f.body is None:
+            continue
+        lets = {}
+        for l in S.find(f.body, "Local"):
+            if l["pat"]["k"] == "PIdent" and l.get("init") is not None:
+                lets[l["pat"]["name"]] = l["init"]
+        for c in S.walk(f.body):
+            if c["k"] != "MethodCall" or c["method"] != "add" or not S.is_path(c["recv"], "env") or len(c["args"]) < 2:
+                continue
+            n += 1
+            v = c["args"][1]
+            src = v
+            if v["k"] == "Path" and len(v["segs"]) == 1 and v["segs"][0] in lets:
+                src = lets[v["segs"][0]]
+            callee = S.callee_name(src) if src["k"] in ("Call", "MethodCall") else None
+            ok = callee in ("fresh_name", "fresh_local")
+            run.ob("R05.6", f"{f.name}|binder id is fresh", ok, site(NR, c["sp"]),
+                   f"id passed to env.add comes from `{callee or S.norm_ws(run.facts.text(NR, src['sp']))[:40]}`",
+                   witness="#[derive(ToJson)] struct Point { x: int32, y: int32 }: both pattern variables of the generated match become one local; to_json prints x twice")
+    run.floor("binder insertions in the resolver", n, 3)
+
+
 def run(run, model):
+    run.try_rule(r05_6, model)
     run.try_rule(r05_5, model)
     run.try_rule(r05_1, model)
     run.try_rule(r05_2, model)
